@@ -242,7 +242,8 @@ Inductive op :=
 | Read (slot : nat) (name : option string)     (* mx.read_model(slot, name=) *)
 | SetCur (name : string)                       (* mx.cur_model(name) *)
 | ApiNewSpace                                  (* mx.new_space(): creates a model when there is no current one *)
-| Edit (h : mid).                              (* any edit / evaluation inside one model *)
+| Edit (h : mid) (sc : bool).                  (* any edit / evaluation inside one model; [sc]: the edit created
+                                                  a space (parent.py: system.currentmodel = space.model) *)
 
 Definition op_rename (x : nat) (s : state) (h : mid) (new : string) (ro : bool) : state * out :=
   match nlookup h (names s) with
@@ -299,7 +300,7 @@ Definition step_x (x : nat) (s : state) (o : op) : state * out :=
   | Read slot name => op_read x s slot name
   | SetCur name => op_setcur s name
   | ApiNewSpace => match cur s with None => new_model x s None | Some _ => (s, Done) end
-  | Edit h => (s, Done)
+  | Edit h sc => if sc && is_open s h then (set_cur (Some h) s, Done) else (s, Done)
   end.
 
 (** fuel |existing| + 1 at every [get_next] (proved sufficient: [Proofs.fuel_suffices]) *)
